@@ -63,19 +63,30 @@ fn canon_case(ctx: &mut Ctx, rng: &mut Rng) {
     let reduced = rng.chance(1, 2);
     // reduced theory: half of the cases mark an arbitrary edge as base point through the public builder
     let base: Option<usize> = if reduced && rng.chance(1, 2) { Some(*rng.choose(&pd.edges())) } else { None };
-    let conf = json!({"origin": origin, "h": h, "reduced": reduced, "explicit_base_point": base});
+    // a third of the cases compute only the window -1..=1 around degree 0 (what an s-invariant needs), with
+    // set_h_range called before or after the crossings are absorbed
+    let window: Option<bool> = if rng.chance(1, 3) { Some(rng.chance(1, 2)) } else { None };
+    let conf = json!({"origin": origin, "h": h, "reduced": reduced, "explicit_base_point": base, "window_-1..=1_set_after_processing": window});
     let wit = |extra: serde_json::Value| json!({"config": conf, "pd": pd.x, "detail": extra});
     let l = to_link(&pd);
     let res = guarded(move || {
-        let c = match base {
-            Some(e) => {
-                let mut b = yui_kh::kh::internal::v2::builder::TngComplexBuilder::<i64>::new(&l, &h, &0, Some(e));
+        let c = match (base, window) {
+            (None, None) => KhComplex::<i64>::new(&l, &h, &0, reduced),
+            (b0, w) => {
+                let bp = b0.or(if reduced { l.first_edge() } else { None });
+                let mut b = yui_kh::kh::internal::v2::builder::TngComplexBuilder::<i64>::new(&l, &h, &0, bp);
+                if w == Some(false) { b.set_h_range(-1..=1) }
                 b.process_all();
+                if w == Some(true) { b.set_h_range(-1..=1) }
                 b.finalize();
                 b.into_kh_complex()
             }
-            None => KhComplex::<i64>::new(&l, &h, &0, reduced),
         };
+        // with h != 0 (Bar-Natan) the homology in degree 0 of a knot has rank 2 (reduced: 1), window or not
+        if h != 0 {
+            let r0 = { use yui_homology::SummandTrait; yui_kh::kh::KhHomology::from(&c)[0].rank() };
+            if r0 != if reduced { 1 } else { 2 } { panic!("C06-H0-rank-{r0}") }
+        }
         let zs = c.canon_cycles().clone();
         let info: Vec<(bool, bool, bool, Vec<i64>)> = zs.iter().map(|z| {
             let nonzero = z.iter().any(|(_, a)| *a != 0);
@@ -91,7 +102,10 @@ fn canon_case(ctx: &mut Ctx, rng: &mut Rng) {
     });
     let (info, rows, n0) = match res {
         Ok(x) => x,
-        Err(e) => { if e.is_overflow() { ctx.inconclusive("overflow_machine_int") } else { ctx.violation("C06/canon/panic", &format!("panicked: {}", e.brief()), wit(json!(null))) } return }
+        Err(e) => {
+            if e.brief().contains("C06-H0-rank-") { ctx.violation("C06/canon/h0-rank", &format!("for h = {h} the homology in degree 0 does not have rank {} ({})", if reduced { 1 } else { 2 }, e.brief()), wit(json!(null))); return }
+            if e.is_overflow() { ctx.inconclusive("overflow_machine_int") } else { ctx.violation("C06/canon/panic", &format!("panicked: {}", e.brief()), wit(json!(null))) } return
+        }
     };
     let expect = if reduced { 1 } else { 2 };
     if info.len() != expect { ctx.violation("C06/canon/count", &format!("{} canonical cycles reported, expected {expect}", info.len()), wit(json!(null))); return }
